@@ -41,19 +41,21 @@ fn mix(a: felt252, b: felt252) -> felt252 nopanic { let _c = b; a }
 fn nz(a: felt252) -> bool nopanic { match a { 0 => false, _ => true } }
 fn gid<T>(x: T) -> T nopanic { x }
 fn gdrop<T, +Drop<T>>(x: T) nopanic {}
+fn eat_dict(x: Felt252Dict<felt252>) -> felt252 nopanic { let _s = x.squash(); 0 }
+fn eat_box(x: Box<D>) -> felt252 nopanic { eat_d(x.unbox()) }
 "#;
 
 #[derive(Clone, Copy, PartialEq, Eq, Debug)]
-pub enum Ty { Felt, P, D, N, X, Y, Arr, E, EN, W }
+pub enum Ty { Felt, P, D, N, X, Y, Arr, E, EN, W, Dict, BoxD }
 #[derive(Clone, Copy, PartialEq, Eq, Debug)]
 pub enum Class { Copy, Drop, Must, Destr, PDestr }
 
 pub fn class(t: Ty) -> Class {
     match t {
         Ty::Felt | Ty::P => Class::Copy,
-        Ty::D | Ty::Arr | Ty::E => Class::Drop,
+        Ty::D | Ty::Arr | Ty::E | Ty::BoxD => Class::Drop,
         Ty::N | Ty::EN | Ty::W => Class::Must,
-        Ty::X => Class::Destr,
+        Ty::X | Ty::Dict => Class::Destr,
         Ty::Y => Class::PDestr,
     }
 }
@@ -61,6 +63,7 @@ fn ty_name(t: Ty) -> &'static str {
     match t {
         Ty::Felt => "felt252", Ty::P => "P", Ty::D => "D", Ty::N => "N", Ty::X => "X", Ty::Y => "Y",
         Ty::Arr => "Array<felt252>", Ty::E => "E", Ty::EN => "EN", Ty::W => "W",
+        Ty::Dict => "Felt252Dict<felt252>", Ty::BoxD => "Box<D>",
     }
 }
 /// nopanic consumer of a value of type t, as a felt252 expression
@@ -70,9 +73,12 @@ fn eat(t: Ty, v: &str) -> String {
         Ty::P => format!("eat_p({v})"), Ty::D => format!("eat_d({v})"), Ty::N => format!("eat_n({v})"),
         Ty::X => format!("eat_x({v})"), Ty::Y => format!("eat_y({v})"), Ty::Arr => format!("eat_arr({v})"),
         Ty::E => format!("eat_e({v})"), Ty::EN => format!("eat_en({v})"), Ty::W => format!("eat_w({v})"),
+        Ty::Dict => format!("eat_dict({v})"), Ty::BoxD => format!("eat_box({v})"),
     }
 }
-const ALL_TYS: [Ty; 10] = [Ty::Felt, Ty::P, Ty::D, Ty::N, Ty::X, Ty::Y, Ty::Arr, Ty::E, Ty::EN, Ty::W];
+const ALL_TYS: [Ty; 12] = [Ty::Felt, Ty::P, Ty::D, Ty::N, Ty::X, Ty::Y, Ty::Arr, Ty::E, Ty::EN, Ty::W, Ty::Dict, Ty::BoxD];
+/// types whose constructor expression is a (panicable) call
+fn ctor_calls(t: Ty) -> bool { matches!(t, Ty::Arr | Ty::Dict | Ty::BoxD) }
 const NONCOPY: [Ty; 8] = [Ty::D, Ty::N, Ty::X, Ty::Y, Ty::Arr, Ty::E, Ty::EN, Ty::W];
 
 #[derive(Clone, Debug)]
@@ -113,6 +119,8 @@ impl Gen {
             Ty::E => if self.rng.bool() { format!("E::A(D {{ a: {k}, b: 1 }})") } else { format!("E::B({k})") },
             Ty::EN => if self.rng.bool() { format!("EN::A(N {{ a: {k} }})") } else { format!("EN::B({k})") },
             Ty::W => format!("W {{ n: N {{ a: {k} }}, d: D {{ a: 2, b: {k} }} }}"),
+            Ty::Dict => "Default::<Felt252Dict<felt252>>::default()".to_string(),
+            Ty::BoxD => format!("BoxTrait::new(D {{ a: {k}, b: 1 }})"),
         }
     }
     fn fresh(&mut self, p: &str) -> String {
@@ -354,17 +362,17 @@ impl Gen {
         if !self.diverged { self.safe_point(depth); }
     }
     fn stmt(&mut self, depth: usize, budget: usize) {
-        let choice = self.rng.below(100);
+        let choice = self.rng.below(122);
         let cons = self.consumable();
         match choice {
             0..=17 => {
                 // new variable
                 let mut t = *self.rng.pick(&ALL_TYS);
-                if t == Ty::Arr && !self.panic_ok() { t = Ty::D; }
+                if ctor_calls(t) && !self.panic_ok() { t = Ty::D; }
                 if self.in_loop > 0 && class(t) == Class::Must && self.rng.bool() { t = Ty::X; }
                 let c = self.ctor(t);
                 let name = self.fresh("v");
-                let mutable = self.rng.below(3) == 0;
+                let mutable = self.rng.below(3) == 0 || t == Ty::Dict;
                 self.line(depth, &format!("let {}{name} = {c};", if mutable { "mut " } else { "" }));
                 self.env.push(Var { name, ty: t, live: true, mutable });
                 self.shape("let");
@@ -413,7 +421,7 @@ impl Gen {
                     let cl = class(self.env[i].ty);
                     if self.env[i].live && (cl == Class::Must || cl == Class::PDestr) { self.consume(depth, i); }
                     let t = self.env[i].ty;
-                    if t == Ty::Arr && !self.panic_ok() { return; }
+                    if ctor_calls(t) && !self.panic_ok() { return; }
                     let cc = self.ctor(t);
                     let n = self.env[i].name.clone();
                     self.line(depth, &format!("{n} = {cc};"));
@@ -466,6 +474,78 @@ impl Gen {
                     let n = self.env[i].name.clone();
                     self.line(depth, &format!("gdrop({n});"));
                     self.shape("gdrop");
+                }
+            }
+            100..=103 if self.panic_ok() => {
+                // dictionary traffic (a real Destruct-only type)
+                let c: Vec<usize> = (0..self.env.len()).filter(|&i| self.env[i].live && self.env[i].ty == Ty::Dict && self.env[i].mutable).collect();
+                if !c.is_empty() {
+                    let i = *self.rng.pick(&c);
+                    let n = self.env[i].name.clone();
+                    let k = self.rng.below(4);
+                    self.line(depth, &format!("{n}.insert({k}, acc);"));
+                    self.line(depth, &format!("acc = acc + {n}.get({k});"));
+                    self.shape("dict");
+                }
+            }
+            104..=107 if self.panic_ok() => {
+                let a = self.fresh("v");
+                let e = self.fresh("e");
+                self.line(depth, &format!("let mut {a} = array![acc, 2, 3];"));
+                self.line(depth, &format!("{a}.append(4);"));
+                self.line(depth, &format!("for {e} in {a}.span() {{ acc = acc + *{e}; }};"));
+                self.env.push(Var { name: a, ty: Ty::Arr, live: true, mutable: true });
+                self.shape("array_for");
+            }
+            108..=110 => {
+                if !cons.is_empty() {
+                    let i = *self.rng.pick(&cons);
+                    let (n, t) = (self.env[i].name.clone(), self.env[i].ty);
+                    self.env[i].live = false;
+                    let (w, u) = (self.fresh("v"), self.fresh("u"));
+                    self.line(depth, &format!("let ({w}, {u}) = ({n}, 7);"));
+                    self.env.push(Var { name: w, ty: t, live: true, mutable: false });
+                    self.acc_add(depth, &u);
+                    self.shape("tuple");
+                }
+            }
+            111..=114 if budget > 0 => {
+                let handed = self.hand_over();
+                self.line(depth, "match acc {");
+                self.line(depth + 1, "0 => {");
+                let d1 = self.branch(depth + 2, budget - 1, &handed, None, true);
+                self.line(depth + 1, "},");
+                self.line(depth + 1, "_ => {");
+                self.branch(depth + 2, budget - 1, &handed, None, !d1);
+                self.line(depth + 1, "},");
+                self.line(depth, "}");
+                self.after_branches(&handed);
+                self.shape("match_felt");
+            }
+            115..=117 if self.panic_ok() => {
+                let (k, c) = (self.fresh("k"), self.fresh("c"));
+                self.line(depth, &format!("let {k} = acc;"));
+                self.line(depth, &format!("let {c} = |x: felt252| mix(x, {k});"));
+                let arg = self.rng.below(9);
+                self.line(depth, &format!("acc = mix(acc, {c}({arg}));"));
+                self.shape("closure");
+            }
+            118..=121 if self.in_loop == 0 => {
+                // let-else with an early return
+                if !cons.is_empty() {
+                    let i = *self.rng.pick(&cons);
+                    let (n, t) = (self.env[i].name.clone(), self.env[i].ty);
+                    self.env[i].live = false;
+                    let (o, q) = (self.fresh("o"), self.fresh("q"));
+                    self.line(depth, &format!("let {o} = Option::Some({n});"));
+                    self.line(depth, &format!("let Option::Some({q}) = {o} else {{"));
+                    let saved = self.env.clone();
+                    self.discharge(depth + 1, 0, &[], true, false);
+                    self.line(depth + 1, "return acc;");
+                    self.env = saved;
+                    self.line(depth, "};");
+                    self.env.push(Var { name: q, ty: t, live: true, mutable: false });
+                    self.shape("let_else");
                 }
             }
             _ => {
@@ -552,6 +632,14 @@ impl Gen {
             let (o, q) = (self.fresh("o"), self.fresh("q"));
             self.line(depth, &format!("let {o} = if nz(acc) {{ Option::Some({n}) }} else {{ Option::Some({n}) }};"));
             // both arms of the `if` move n: accepted, and gives a remapping of the option
+            if self.rng.bool() {
+                self.line(depth, &format!("if let Option::Some({q}) = {o} {{"));
+                let d1 = self.branch(depth + 1, budget, &handed, Some((q, t)), true);
+                self.line(depth, "} else {");
+                self.branch(depth + 1, budget, &handed, None, !d1);
+                self.line(depth, "}");
+                self.shape("if_let");
+            } else {
             self.line(depth, &format!("match {o} {{"));
             self.line(depth + 1, &format!("Option::Some({q}) => {{"));
             let d1 = self.branch(depth + 2, budget, &handed, Some((q, t)), true);
@@ -561,6 +649,7 @@ impl Gen {
             self.line(depth + 1, "},");
             self.line(depth, "}");
             self.shape("match_option");
+            }
         }
         self.after_branches(&handed);
     }
@@ -638,16 +727,29 @@ pub fn generate(seed: u64, plan: Option<(usize, bool)>, budget: usize) -> Genera
         g.line(0, "}");
     }
     // a driver so that everything is reachable from a non-generic free function
-    let args = |g: &mut Gen, ps: &[Ty]| -> String {
+    // constructor expressions that are calls are evaluated first: no value without Drop may be
+    // live across a panicable call
+    fn args(g: &mut Gen, ps: &[Ty], pre: &mut Vec<String>) -> String {
         let mut v = vec!["1".to_string()];
-        for t in ps { let t = if *t == Ty::Arr { Ty::Arr } else { *t }; v.push(g.ctor(t)); }
+        for t in ps {
+            let c = g.ctor(*t);
+            if ctor_calls(*t) {
+                let n = g.fresh("g");
+                pre.push(format!("let {n} = {c};"));
+                v.push(n);
+            } else {
+                v.push(c);
+            }
+        }
         v.join(", ")
-    };
-    let a0 = args(&mut g, &p0);
+    }
+    let mut pre = vec![];
+    let a0 = args(&mut g, &p0, &mut pre);
+    let a1 = if meth { args(&mut g, &p1, &mut pre) } else { String::new() };
     g.line(0, "fn drv() -> felt252 {");
+    for l in &pre { g.line(1, l); }
     g.line(1, &format!("let r0 = f0({a0});"));
     if meth {
-        let a1 = args(&mut g, &p1);
         g.line(1, "let d = D { a: 1, b: 2 };");
         g.line(1, &format!("let r1 = d.meth({a1});"));
         g.line(1, "r0 + r1");
